@@ -24,8 +24,8 @@ _XSD = """<xs:schema xmlns:xs="http://www.w3.org/2001/XMLSchema" targetNamespace
    <xs:choice minOccurs="0" maxOccurs="unbounded"><xs:element name="t"><xs:complexType><xs:sequence><xs:element name="v" type="xs:time"/></xs:sequence></xs:complexType></xs:element></xs:choice>
    <xs:element name="b" maxOccurs="unbounded"><xs:complexType><xs:sequence>
        <xs:element name="v" type="xs:boolean"/><xs:element ref="g" minOccurs="0"/>
-       <xs:element name="w" minOccurs="0"><xs:complexType><xs:sequence><xs:element name="v" type="xs:date"/></xs:sequence></xs:complexType></xs:element>
-     </xs:sequence><xs:attribute name="k" type="xs:int"/></xs:complexType></xs:element>
+       <xs:element name="w" minOccurs="0"><xs:complexType><xs:sequence><xs:element name="v" type="xs:date"/></xs:sequence><xs:attribute name="q" type="xs:QName"/></xs:complexType></xs:element>
+     </xs:sequence><xs:attribute name="k" type="xs:int"/><xs:attribute name="q" type="xs:QName"/></xs:complexType></xs:element>
  </xs:sequence><xs:attribute name="id" type="xs:int"/></xs:complexType></xs:element></xs:schema>"""
 DOCS = [
     # valid
@@ -34,6 +34,9 @@ DOCS = [
     # invalid values in b[2]/v and b[2]/w/v, bad attribute on b[1]
     '<p:r xmlns:p="urn:u1" id="1"><p:a><p:v>1</p:v><p:hm>s</p:hm></p:a><p:t><p:v>10:00:00</p:v></p:t><p:t><p:v>noon</p:v></p:t><p:b k="x"><p:v>true</p:v><p:g>5</p:g></p:b>'
     '<p:b><p:v>maybe</p:v><p:w><p:v>yesterday</p:v></p:w></p:b></p:r>',
+    # valid; a namespace declared on a selected element (b[1]) and used by QName values on it and below it; an undeclared prefix in b[2]
+    '<p:r xmlns:p="urn:u1" id="1"><p:a><p:v>1</p:v></p:a><p:b k="1" xmlns:z="urn:z" q="z:n"><p:v>true</p:v><p:w q="z:m"><p:v>2000-01-01</p:v></p:w></p:b>'
+    '<p:b q="z:n"><p:v>0</p:v></p:b></p:r>',
 ]
 NS = {'p': U1}
 SCHEMA = xmlschema.XMLSchema10(_XSD)
@@ -87,6 +90,12 @@ def region_partial_substitution_member(**kw):
     """known finding C20-partial-substitution-member: element #3 of the template documents is <p:hm>, a member of the
     substitution group of the referenced head h"""
     return kw.get("e") == 3
+
+
+def region_partial_ancestor_xmlns(**kw):
+    """known finding C20-partial-ancestor-xmlns: element #5 of document 2 (w) uses a prefix declared on its parent b[1],
+    a non-root ancestor of the selected element"""
+    return CFG["doc"] == 2 and kw.get("e") == 5
 
 
 def pre_idx(fn, **kw):
@@ -177,6 +186,28 @@ def h_partial(e: int, v: int) -> bool:
     return got_err == want_err
 
 
+def h_partial_errors(e: int, v: int) -> bool:
+    """iter_errors(doc, path=p) equals the whole-document errors located in the selected subtrees (same order)"""
+    doc = DOCS[CFG["doc"]]
+    res = xmlschema.XMLResource(doc)
+    elems = list(res.root.iter())
+    ei = pick(e, 15)
+    if ei == 0 or ei >= len(elems):
+        return True
+    elem = elems[ei]
+    variant = (0, 1)[pick(v, 5) % 2]
+    steps = _steps(res.root, elem)
+    path, ns = _spell(steps, variant)
+    selected = [x for x in res.root.iter() if _steps(res.root, x)[:len(steps)] == steps] if variant == 1 else \
+        [x for x in res.root.iter() if [t for t, p, c in _steps(res.root, x)[:len(steps)]] == [t for t, p, c in steps]]
+    sel_paths = set()
+    for x in selected:
+        sel_paths.add(_spell(_steps(res.root, x), 1)[0])
+    want_err = [(er.reason, er.path) for er in SCHEMA.iter_errors(doc, namespaces=NS) if er.path in sel_paths]
+    got_err = [(er.reason, er.path) for er in SCHEMA.iter_errors(doc, path=path, namespaces=NS)]
+    return got_err == want_err
+
+
 def h_depth(d: int) -> bool:
     """limiting the depth changes nothing above the cut"""
     doc = DOCS[CFG["doc"]]
@@ -254,4 +285,6 @@ def obligations(tier, seed):
                     "timeout": 600, "twin_timeout": 30, "bound": "every non-root element x path with/without positional predicates"})
         out.append({"name": "depth/doc%d" % doc, "fn": "h_depth", "pre": "pre_idx", "args": [["d", "int"]], "config": {"doc": doc},
                     "timeout": 200, "twin_timeout": 30, "bound": "max_depth 0..3"})
+    out.append({"name": "partial-errors/doc2", "fn": "h_partial_errors", "pre": "pre_idx", "args": [["e", "int"], ["v", "int"]], "config": {"doc": 2},
+                "timeout": 600, "twin_timeout": 30, "bound": "the same document: errors of the partial validation vs the whole-document errors in the selected subtrees"})
     return out
